@@ -99,6 +99,8 @@ func newCreateTable(ct sql.CreateTableStmt) *Schema {
 		if latePK && sameIndexColumns(st.PK, cols) {
 			latePK = false
 			autoindex++
+			// the primary key will be merged into this index
+			st.PK = cols
 		}
 	}
 	for _, c := range ct.Columns {
@@ -209,6 +211,11 @@ constraint:
 						}
 					}
 					pkCols = append(pkCols, co)
+				}
+				if intPK {
+					// SQLite rebuilds this primary key from the column
+					// alone: a COLLATE in the constraint is not used.
+					pkCols[0].Collate = st.column(pkCols[0].Column).Collate
 				}
 				if !st.setPK(pkCols) {
 					if intPK {
